@@ -586,8 +586,20 @@ theorem readCldcFrame_spec (hB : 65535 ≤ B) (l : Labels) (s : Bytes) : Spec op
   unfold readCldcFrame
   refine Spec.bind (Spec.u16 s) (fun ⟨off, s1⟩ _ => ?_)
   refine Spec.bind (vec16L_spec hB readVType_spec l s1) (fun ⟨l1, s2⟩ _ => ?_)
-  refine Spec.bind (vec16L_spec hB readVType_spec l1 s2) (fun ⟨l2, s3⟩ _ => ?_)
-  exact Spec.bind (Labels.getOrCreate_spec l2 off) (fun _ _ => Spec.ret _ trivial)
+  exact Spec.bind (vec16L_spec hB readVType_spec l1 s2) (fun ⟨l2, s3⟩ _ => Spec.ret _ trivial)
+
+theorem readCldcFrames_spec (hB : 65535 ≤ B) : ∀ (n : Nat) (l : Labels) (acc : List Nat) (s : Bytes),
+    Spec openSites B (readCldcFrames n l acc s) (fun _ => True)
+  | 0, l, acc, s => Spec.ret _ trivial
+  | n + 1, l, acc, s => by
+    unfold readCldcFrames
+    exact Spec.bind (readCldcFrame_spec hB l s) (fun ⟨o, l1, s1⟩ _ => readCldcFrames_spec hB n l1 (o :: acc) s1)
+
+theorem createAll_spec : ∀ (os : List Nat) (l : Labels), Spec openSites B (createAll os l) (fun _ => True)
+  | [], l => Spec.ret _ trivial
+  | o :: os, l => by
+    unfold createAll
+    exact Spec.bind (Labels.getOrCreate_spec l o) (fun l1 _ => createAll_spec os l1)
 
 theorem readLine_spec (l : Labels) (s : Bytes) : Spec openSites B (readLine l s) (fun _ => True) := by
   unfold readLine; pin
@@ -647,7 +659,10 @@ theorem readCodeAttr_spec (hB : 65535 ≤ B) (st : AttrState) (s : Bytes) :
     refine Spec.bind (readFrames_spec hB n true 0 st.labels s3) (fun ⟨l, s4⟩ _ => ?_)
     exact Spec.bind (Spec.guard _) (fun _ _ => Spec.ret _ trivial)
   · split
-    · refine Spec.bind (vec16L_spec hB (readCldcFrame_spec hB) st.labels s2) (fun ⟨l, s3⟩ _ => ?_)
+    · refine Spec.bind (Spec.u16 s2) (fun ⟨n, s3⟩ hn => ?_)
+      refine Spec.bind (Spec.request (Nat.le_trans hn.2 hB)) (fun _ _ => ?_)
+      refine Spec.bind (readCldcFrames_spec hB n st.labels [] s3) (fun ⟨l, offsets, s4⟩ _ => ?_)
+      refine Spec.bind (createAll_spec _ l) (fun l2 _ => ?_)
       exact Spec.bind (Spec.guard _) (fun _ _ => Spec.ret _ trivial)
     · split
       · refine Spec.bind (Spec.u16 s2) (fun ⟨n, s3⟩ _ => ?_)
